@@ -403,6 +403,41 @@ def run_world(seed, tier, world=None, histories=None, relations=True):
                 if not dev2 <= 1e-9:
                     verdict("O-history", f"adiabatic c{k} depends on the request: deviates from its singleton-request value by {dev2:.3e} x scale", history=h, dev=dev2)
                     break
+    # one task-list OBJECT re-used for a sequence of requests with alternating strain fields (a history on one object):
+    # every result must equal that of a fresh list given the same (strain, request)
+    reuse_checked = 0
+    try:
+        from cij.util import c_
+        from cij.core.tasks import PhononContributionTaskList
+        alt = numpy.roll(strain, 1, axis=1) if world.get("strain_kind") != "equal" else strain * 1.0
+        if world.get("strain_kind") == "equal":
+            alt = numpy.array([[0.25, 0.35, 0.4]] * strain.shape[0])
+        tl = PhononContributionTaskList(calc)
+        chain = []
+        crng = random.Random(seed ^ 0x5BD1E995)      # its own stream: a replay (world and histories given) rebuilds the same chain
+        for step in range(4):
+            size = crng.choice([2, 3, 5, 21])
+            chain.append((strain if step % 2 == 0 else alt, [[k] for k in crng.sample(ALL21, size)]))
+        for step, (S, h) in enumerate(chain):
+            keys = [c_(*a) for a in h]
+            tl.resolve(S, keys)
+            tl.calculate()
+            got = tl.get_isothermal_results()
+            runs += 1
+            mon.violations = []
+            rkeys, ref, _ad, _tl = run_request(calc, S, h)
+            runs += 1
+            mon.violations = []
+            for key in keys:
+                dev = float(numpy.max(numpy.abs(numpy.asarray(got[key]) - numpy.asarray(ref[key])))) / scale
+                if not dev <= 1e-9:
+                    verdict("O-history", f"re-used task list: isothermal c{canon(key)} of request {step + 1} deviates from a fresh list's value by {dev:.3e} x scale",
+                            history=h, chain_step=step)
+                    break
+            reuse_checked += 1
+    except Exception as e:
+        verdict("O-complete", f"re-used task list raised {type(e).__name__}: {str(e)[:150]}")
+    mon.violations = []
     # ride-along relations (differential on the same machinery, not "simulation")
     rel = {"isotropy_checked": 0, "axis_perm_checked": 0}
     if relations and len(solo) == 21:
@@ -439,7 +474,7 @@ def run_world(seed, tier, world=None, histories=None, relations=True):
         mon.violations = []
     return {"verdicts": verdicts, "runs": runs, "stats": mon.stats, "event_digest": mon.digest(), "n_events": len(mon.events),
             "strain_kind": world.get("strain_kind"), "maxdev": maxdev, "history_sizes": {str(k): v for k, v in sizes.items()},
-            "rel": rel, "scale": scale, "wall": time.time() - t0, "n_histories": len(histories), "world_kind": world["kind"],
+            "rel": rel, "reuse_chain_steps": reuse_checked, "scale": scale, "wall": time.time() - t0, "n_histories": len(histories), "world_kind": world["kind"],
             "sample": {"seed": seed, "world_kind": world["kind"], "strain_kind": world.get("strain_kind"), "strain_row0": world["strain"][0], "history": histories[-1]}}
 
 
